@@ -578,7 +578,7 @@ def gen_aliasing(tier, rng):
         tags = [v for k, v in flags if k == "tag"]
         if not tags or not doc.records:
             continue
-        out.append("query-alias %s %s" % (hx(tags[0]), hx(doc.render())))
+        out.append("query-alias %s %s" % (hx(tags[0].split(",")[0]), hx(doc.render())))
     return out
 
 def gen_override(tier, rng):
